@@ -21,6 +21,11 @@ def label_map(prog, scheme):
         return {l: "a_rather_long_label_name_for_" + l + "_0123456789" for l in labs}
     if scheme == "reverse":   # new names whose alphabetical order is the reverse of the old one
         return {l: "z%03d_%s" % (len(labs) - i, l) for i, l in enumerate(labs)}
+    if scheme == "dunder":
+        return {l: "__" + l + "__" for l in labs}
+    if scheme.startswith("tool-"):   # one label gets a name the tool could be using internally
+        k = int(scheme[5:]) % len(labs)
+        return {labs[k]: "__return__"}
     if scheme == "swap":      # a permutation of the existing names
         return {l: labs[(i + 1) % len(labs)] for i, l in enumerate(labs)}
     return {}
@@ -68,11 +73,11 @@ def run(tier, replay=None):
     out.sample({"case": cases[0], "renamed": pairs[0][1][:300]})
     out.assumptions += [
         "register classes: temporaries t0-t6 and saved registers s0-s11 (fp is s0); permutations = identity, all transpositions, all rotations of a class",
-        "label renaming schemes: suffix, leading underscore, digits, long names, a cyclic permutation of the existing names",
+        "label renaming schemes: suffix, leading underscore, digits, long names, reversed alphabetical order, a cyclic permutation of the existing names, double underscores around every name, one label at a time called __return__",
         "diagnostics compared as multisets of (kind, instruction index, operand) with register operands mapped through the permutation",
     ]
     return out.finish(extra_cov={
         "renamings_total": total, "renamings_run": len(cases), "exhaustive": tier == "thorough",
         "evaluations": 2 * len(pairs), "distinct_nontrivial": len({p[1] for p in pairs}),
-        "rule": "Gen_Rename: (identity | transposition | rotation) of the t class x of the s class x label scheme, at most two of the three non-trivial, x 4 base programs (quick: 1500 sampled by seed; thorough: all)",
+        "rule": "Gen_Rename: (identity | transposition | rotation) of the t class x of the s class x label scheme, at most two of the three non-trivial, x 12 base programs (quick: 1500 sampled by seed; thorough: all)",
     })
